@@ -1036,6 +1036,28 @@ def run_shard(shard, tier, seed):
     res.see_in('contract-implementation', contracts.kind)
     pool = []
     try:
+        # the thread clause first, with a workload that does not depend on how much time is left: four thread rounds
+        # and two preemption rounds over ten generated cases (CHOICE / SET / string types among them: what the shared
+        # lookup tables and the chunking encoders are used by)
+        try:
+            block = []
+            for j in range(40):
+                bt0 = C.try_build(res, *C.gen_case(rng, tier, depth=2, allow_any=False))
+                if bt0 is not None and (U.base_of(bt0.T)[0] not in U.SIMPLE or j % 4 == 0):
+                    block.append(bt0)
+                if len(block) >= 10:
+                    break
+            if block:
+                for k in range(4):
+                    arm_threads(res, rng, block[(k % 2) * 5:(k % 2) * 5 + 5] or block)
+                saved = PREEMPT_SPENT[0]
+                arm_preempt(res, rng, block[:5], tier)
+                arm_preempt(res, rng, block[5:] or block, tier)
+                PREEMPT_SPENT[0] = saved
+        except Exception:
+            res.see('harness:error')
+            if len(res.inconclusive) < 3:
+                res.inconclusive.append('harness error: ' + H.fmt_exc())
         for i in range(shard['n']):
             if budget.expired(res):
                 break
